@@ -39,6 +39,8 @@ struct Run {
 
 static const char *DOMS[] = {"t.example.com", "a.io", "tunnel.some-quite-long-name.of-a.delegated.zone.example.org", "x1.Y2.z3.net"};
 
+inline bool &tight_m() { static bool b = false; return b; }
+
 inline scn::Config gen_config(Tape &t, Mode mode)
 {
 	scn::Config c;
@@ -52,6 +54,13 @@ inline scn::Config gen_config(Tape &t, Mode mode)
 	int minlen = (int)c.domain.size() + 24;
 	if (t.chance(1, 3)) c.maxlen = std::max(100, std::min(255, t.chance(1, 2) ? t.range(100, 255) : std::max(minlen, 100) + (int)t.below(8)));
 	if (c.maxlen && c.maxlen < minlen) c.maxlen = minlen;
+	// C10 only: every -M value the option parser accepts (10..255), also those that leave less than the 24 characters in front
+	// of the domain which C08 presupposes -- whatever the client then emits must still be a well-formed DNS message
+	if (tight_m()) {
+		static const char *LONGD[] = {"tunnel.some-quite-long-name.of-a.delegated.zone.example.org", "a-rather-long-label-of-some-sixty-characters-1234567890-123456.another-label-of-some-length.example-zone.net", "t.example.com"};
+		c.domain = LONGD[t.below(3)]; c.srv_domain.clear();
+		c.maxlen = std::max(10, std::min(255, (int)c.domain.size() + t.range(-8, 30)));
+	}
 	if (t.chance(1, 5)) { size_t p = c.domain.find('.'); c.srv_domain = "*" + c.domain.substr(p); if (!ref::valid_topdomain(c.srv_domain, true)) c.srv_domain.clear(); }
 	// fragment size: autoprobe or forced
 	if (t.chance(2, 5)) {
